@@ -387,7 +387,6 @@ def shard(ctx, arg):
 
 def shipped(ctx, arg):
     """passive layer: every v1 signature block of the shipped APKs goes through the same postcondition"""
-    import re
     from androguard.core import apk as apkmod
     mon = Monitor(ctx, apkmod)
     for p in arg:
@@ -454,3 +453,54 @@ def run(ctx):
     if not ctx.quick:
         ctx.require_counter("configs_with_every_byte_corrupted", len(cfgs))
     ctx.min_distinct = 100
+
+
+class ReplayCase:
+    """a stored witness: the PKCS#7 and .SF bytes are put into a fresh archive laid out like the original configuration"""
+    block2 = None
+
+    def __init__(self, w):
+        self.cfg = w["config"]
+        self.alg = self.cfg["alg"]
+        self.signame = w["signature_entry"]
+        self.sfname = self.signame.rsplit(".", 1)[0] + ".SF"
+
+    def apk(self, p7, sf):
+        entries = [apkw.Entry("META-INF/MANIFEST.MF", b"Manifest-Version: 1.0\r\nCreated-By: verif\r\n\r\n", apkw.DEFLATED),
+                   apkw.Entry(self.sfname, sf, apkw.DEFLATED if self.cfg.get("sf_method") else apkw.STORED), apkw.Entry(self.signame, p7, apkw.DEFLATED)]
+        return apkw.build_apk(entries, manifest=self.cfg.get("manifest"))
+
+    def label(self):
+        return "%s-%s" % (self.alg, "attrs" if self.cfg["attrs"] else "no-attrs")
+
+
+def replay_shard(ctx, arg):
+    from androguard.core import apk as apkmod
+    mon = Monitor(ctx, apkmod)
+    for w in arg:
+        if "file" in w:  # shipped APK witness
+            shipped(ctx, [w["file"]])
+            ctx.sample({"file": w["file"]})
+            continue
+        if any(len(w[k]["hex"]) != 2 * w[k]["len"] for k in ("pkcs7", "sf")):
+            ctx.inconclusive("witness bytes were truncated when stored (PKCS#7 > 4000 bytes); re-run the check instead")
+            continue
+        case = ReplayCase(w)
+        p7, sf = bytes.fromhex(w["pkcs7"]["hex"]), bytes.fromhex(w["sf"]["hex"])
+        # the stored kind decides the expectation: "valid" witnesses must return the certificate that the independent verifier accepts
+        expect = None
+        if w["kind"] == "valid" or w["kind"].endswith("@identical"):
+            good = [c for c in C.parse_p7(p7)["certs"] if C.verify_v1(p7, sf, c)["ok"]]
+            expect = good[0] if good else None
+        run_case(ctx, mon, apkmod.APK, case, w["kind"], p7, sf, expect_cert=expect, detail=w.get("detail"))
+        ctx.sig("replay", w["kind"], case.label())
+        ctx.sample({"kind": w["kind"], "config": case.cfg, "last_result": mon.last[0] if mon.last else None})
+
+
+def replay(ctx, path):
+    import json
+    with open(path) as f:
+        j = json.load(f)
+    ctx.rule = "replay of the stored witnesses of mechanism %s" % j.get("mechanism")
+    ctx.min_distinct = 1
+    ctx.run_shards(MOD, "replay_shard", [j["witnesses"]], timeout=300)
